@@ -519,9 +519,15 @@ def run_covariate(spec):
         return val(a, par), val(b, par), pb
 
     detail = f'{mid} gen={gen} prior={prior}: add_covariate_effect({par!r}, {cov!r}, {eff_arg!r}, {op!r}, allow_nested={nested})'
-    thvals = {t: _gval(i + 3, k, -0.35, 0.35) for i, t in enumerate(thetas)}
+    cvals = [v for v in cols[cov] if v == v]
+    spread = max(cvals) - min(cvals)
+    # thetas scaled to the spread of the covariate so that exp / lin effects stay in a comparable range
+    scale = 1.0 if (effect in F.CATEGORICAL_EFFECTS or effect == 'pow' or custom is not None) else max(1.0, spread)
+    thvals = {t: _gval(i + 3, k, -0.35, 0.35) / scale for i, t in enumerate(thetas)}
     covval = p1.data[cov]
     matched_ref = None
+    dep_before = _depends_on_column(m1, par, cov, p1)
+    ntag = '[nested-on-same-covariate]' if dep_before else ''
 
     if effect in F.CONTINUOUS_EFFECTS or custom is not None:
         need = F.N_THETAS[effect] if custom is None else custom[3]
@@ -547,7 +553,7 @@ def run_covariate(spec):
         ok = [nm for nm, e in exp.items() if close(Pa, e, rtol=RTOL)]
         if not ok:
             raise Violation(
-                f'covariate:formula:{effect if custom is None else "custom"}', observed=Pa, expected=exp,
+                f'covariate{ntag}:formula:{effect if custom is None else "custom"}', observed=Pa, expected=exp,
                 detail=f'{detail}; {par} before={Pb} {cov}={covval} thetas={thvals}; expected per reading of the statistic',
             )
         distinct_vals = len({round(e, 12) for e in exp.values() if e == e})
@@ -559,22 +565,30 @@ def run_covariate(spec):
             classes.append('nonfinite')
         # second point: on the other side of the median (piece_lin uses the other theta)
         if custom is None:
-            med = cands[ok[0]]
+            # every reading of the median that explained the first point must also explain the second one
+            # (several can survive when they coincide or the effect under/overflows at the first point)
+            still, seen = [], {}
+            for nm in ok:
+                med = cands[nm]
+                other = med + 0.37 * spread if covval <= med else med - 0.41 * spread
+                if effect == 'pow' and other * med <= 0:
+                    other = med * 1.5
+                Pb2, Pa2, _ = before_after(other, thvals)
+                e2 = F.apply_operation(Pb2, op, F.cov_effect(effect, other, tv, med))
+                evals += 1
+                seen[nm] = dict(cov=other, median=med, observed=Pa2, expected=e2)
+                if close(Pa2, e2, rtol=RTOL):
+                    still.append(nm)
+            if not still:
+                raise Violation(f'covariate{ntag}:formula:{effect}:other-side', observed={n_: v['observed'] for n_, v in seen.items()}, expected=seen, detail=f'{detail}; thetas={thvals}')
+            med = cands[still[0]]
             matched_ref = med
-            other = med + 1.75 if covval <= med else med - 0.8 * abs(med - min(cols[cov])) - 0.01
-            if effect == 'pow' and other * med <= 0:
-                other = med * 1.5
-            Pb2, Pa2, _ = before_after(other, thvals)
-            e2 = F.apply_operation(Pb2, op, F.cov_effect(effect, other, tv, med))
-            evals += 1
-            if not close(Pa2, e2, rtol=RTOL):
-                raise Violation(f'covariate:formula:{effect}:other-side', observed=Pa2, expected=e2, detail=f'{detail}; {cov}={other} median={med} thetas={thvals}')
             # neutrality at the reference (derived: templates are 1 at cov == median; neutral for '*')
             if F.neutral_at_reference(effect, op):
                 Pb3, Pa3, _ = before_after(med, thvals)
                 evals += 1
                 if not close(Pa3, Pb3, rtol=RTOL):
-                    raise Violation(f'covariate:neutral:{effect}', observed=Pa3, expected=Pb3, detail=f'{detail}; at {cov}=median={med}')
+                    raise Violation(f'covariate{ntag}:neutral:{effect}', observed=Pa3, expected=Pb3, detail=f'{detail}; at {cov}=median={med}')
     else:
         # categorical: every level of the column
         levels = sorted({v for v in cols[cov] if v == v})
@@ -616,7 +630,7 @@ def run_covariate(spec):
                     matched_ref = top
         if not ok:
             raise Violation(
-                f'covariate:formula:{effect}', observed={str(k_): v for k_, v in ratios.items()}, expected={str(k_): sorted(v) for k_, v in mc.items()},
+                f'covariate{ntag}:formula:{effect}', observed={str(k_): v for k_, v in ratios.items()}, expected={str(k_): sorted(v) for k_, v in mc.items()},
                 detail=f'{detail}; applied coveff per level {ratios}; thetas={thvals}; most common level candidates {mc}; {why}',
             )
         classes.append('mode=' + ('|'.join(sorted(set(ok))) if mc['by_records'] != mc['by_individuals'] else 'readings-coincide'))
@@ -625,11 +639,10 @@ def run_covariate(spec):
             Pb3, Pa3, _ = before_after(matched_ref, thvals)
             evals += 1
             if not close(Pa3, Pb3, rtol=RTOL):
-                raise Violation(f'covariate:neutral:{effect}', observed=Pa3, expected=Pb3, detail=f'{detail}; at most common level {matched_ref}')
+                raise Violation(f'covariate{ntag}:neutral:{effect}', observed=Pa3, expected=Pb3, detail=f'{detail}; at most common level {matched_ref}')
 
     # remove_covariate_effect(add(...)) restores the function (only when there was no dependence before)
     pa = with_(p1, data={cov: covval})
-    dep_before = _depends_on_column(m1, par, cov, pa)
     if not dep_before:
         m3 = call(mm.remove_covariate_effect, m2, par, cov, clause='remove_covariate_effect')
         p3 = extend_point(m3, pa, k)
@@ -864,7 +877,8 @@ def _var_add_iov(spec, mid, gen, m1, p1, par, pars, head, ext):
     mm = M()
     k = spec['k']
     _, cat = covariate_columns(mid, gen)
-    occs = ['GOCC', 'GOCC', 'GK2'] + [c for c in cat if c not in GEN_COLS][:2]
+    colsd = columns(mid, gen)
+    occs = ['GOCC', 'GOCC', 'GK2'] + [c for c in cat if c not in GEN_COLS and all(float(v).is_integer() for v in colsd[c])][:2]
     occ = occs[spec['occ'] % len(occs)]
     dist = IOV_DIST[spec['dist'] % len(IOV_DIST)]
     how = spec['how'] % 4
@@ -1591,6 +1605,9 @@ def run_transit_absorption(spec):
         if len(tr2) != n:
             raise Violation('transit:count', observed=[c for c, _ in tr2], expected=n, detail=detail)
         classes += [f'n={n}', f'from={len(tr1)}', f'keep_depot={keep}']
+        ttag = ''
+        if n == 1 and len(tr1) > 1 and not m2.statements.ode_system.find_transit_compartments(m2.statements):
+            ttag = '[reduced-to-one-transit-without-depot]'
         if n > 0:
             rates = [v for _, v in tr2]
             if not all(finite(v) and v > 0 for v in rates):
@@ -1601,12 +1618,12 @@ def run_transit_absorption(spec):
             asserted, hit, cands = mean_time_variable(mv2, ('MDT',), mtt)
             if asserted:
                 if not hit:
-                    raise Violation('transit:mean-transit-time-is-not-MDT', observed=mtt, expected=cands, detail=f'{detail}; rates {tr2}; sum of 1/rate vs MDT variables')
+                    raise Violation(f'transit{ttag}:mean-transit-time-is-not-MDT', observed=mtt, expected=cands, detail=f'{detail}; rates {tr2}; sum of 1/rate vs MDT variables')
                 classes.append('mdt-checked')
             if tr1:
                 mtt1 = F.mean_transit_time([v for _, v in tr1])
                 if not close(mtt, mtt1, rtol=RTOL):
-                    raise Violation('transit:mean-transit-time-not-kept', observed=mtt, expected=mtt1, detail=f'{detail}; before {tr1}; after {tr2}')
+                    raise Violation(f'transit{ttag}:mean-transit-time-not-kept', observed=mtt, expected=mtt1, detail=f'{detail}; before {tr1}; after {tr2}')
                 classes.append('kept-checked')
         key = f'transit|{n}|{keep}'
     else:
